@@ -765,7 +765,7 @@ def _argminmax_2d(
     isna = isna_array(array)
 
     isna_axis = isna.any(axis=axis)
-    if isna_axis.all(): # nan in every axis remaining position
+    if len(isna_axis) and isna_axis.all(): # nan in every axis remaining position, of which there is at least one
         if not skipna:
             return np.full(isna_axis.shape, np.nan, dtype=DTYPE_FLOAT_DEFAULT)
 
